@@ -1,6 +1,7 @@
 package java
 
 import (
+	"encoding/json"
 	"fmt"
 	"regexp"
 	"strings"
@@ -46,24 +47,45 @@ func cleanString(s string) string {
 
 func formatType(t ast.ScalarKind, val interface{}) string {
 	// When the default is 0, is detected as integer even if it's a float.
-	parseFloatVal := func(val interface{}) interface{} {
-		if v, ok := val.(int64); ok {
-			return float64(v)
+	// Defaults coming from JSON documents are json.Number values.
+	parseFloatVal := func(val interface{}) (float64, bool) {
+		switch v := val.(type) {
+		case float64:
+			return v, true
+		case float32:
+			return float64(v), true
+		case int64:
+			return float64(v), true
+		case int:
+			return float64(v), true
+		case json.Number:
+			if f, err := v.Float64(); err == nil {
+				return f, true
+			}
 		}
-		return val.(float64)
+		return 0, false
 	}
 
 	// Integers could be floats in JSON
-	parseIntVal := func(val interface{}) interface{} {
-		if v, ok := val.(float64); ok {
-			return int64(v)
+	parseIntVal := func(val interface{}) (interface{}, bool) {
+		switch v := val.(type) {
+		case float64:
+			return int64(v), true
+		case int:
+			return v, true
+		case int64:
+			return v, true
+		case uint64:
+			return v, true
+		case json.Number:
+			if i, err := v.Int64(); err == nil {
+				return i, true
+			}
+			if f, err := v.Float64(); err == nil {
+				return int64(f), true
+			}
 		}
-
-		if v, ok := val.(int); ok {
-			return v
-		}
-
-		return val.(int64)
+		return nil, false
 	}
 
 	if list, ok := val.([]interface{}); ok {
@@ -76,15 +98,25 @@ func formatType(t ast.ScalarKind, val interface{}) string {
 		return strings.Join(items, ", ")
 	}
 
+	// a value that is not a number (a default of the wrong type in the
+	// schema) is printed as it is instead of crashing the generator
 	switch t {
 	case ast.KindInt64, ast.KindUint64:
-		return fmt.Sprintf("%dL", parseIntVal(val))
+		if v, ok := parseIntVal(val); ok {
+			return fmt.Sprintf("%dL", v)
+		}
 	case ast.KindInt8, ast.KindUint8, ast.KindInt16, ast.KindUint16, ast.KindInt32, ast.KindUint32:
-		return fmt.Sprintf("%d", parseIntVal(val))
+		if v, ok := parseIntVal(val); ok {
+			return fmt.Sprintf("%d", v)
+		}
 	case ast.KindFloat32:
-		return fmt.Sprintf("%.1ff", parseFloatVal(val))
+		if v, ok := parseFloatVal(val); ok {
+			return fmt.Sprintf("%.1ff", v)
+		}
 	case ast.KindFloat64:
-		return fmt.Sprintf("%.1f", parseFloatVal(val))
+		if v, ok := parseFloatVal(val); ok {
+			return fmt.Sprintf("%.1f", v)
+		}
 	}
 
 	return fmt.Sprintf("%#v", val)
